@@ -715,6 +715,7 @@ func (s *Service) Shutdown() error {
 
 	// Wait for all workers to be done
 	s.wg.Wait()
+	verifPoint("shutdown.drained", nil)
 
 	s.inCh = nil
 	s.nc = nil
@@ -730,7 +731,9 @@ func (s *Service) close() {
 	s.mu.Lock()
 	s.workqueue = nil
 	s.mu.Unlock()
+	verifPoint("close.flagged", nil)
 	s.workcond.Broadcast()
+	verifPoint("close.woken", nil)
 
 	s.nc.Close()
 	close(s.inCh)
@@ -967,6 +970,7 @@ func (s *Service) handleRequest(m *nats.Msg) {
 
 	s.runWith(group, func() {
 		s.processRequest(m, rtype, rname, method, mh)
+		verifPoint("request.done", m)
 	})
 }
 
@@ -976,6 +980,7 @@ func (s *Service) runWith(wid string, cb func()) {
 	if atomic.LoadInt32(&s.state) != stateStarted {
 		return
 	}
+	verifPoint("runWith.checked", wid)
 
 	s.mu.Lock()
 	// Get current work queue for the resource
@@ -997,11 +1002,13 @@ func (s *Service) runWith(wid string, cb func()) {
 		}
 		s.workqueue = append(s.workqueue, w)
 		s.mu.Unlock()
+		verifPoint("runWith.queued", wid)
 		s.workcond.Signal()
 	} else {
 		// Append callback to existing work queue
 		w.queue = append(w.queue, cb)
 		s.mu.Unlock()
+		verifPoint("runWith.appended", wid)
 	}
 }
 
@@ -1069,6 +1076,7 @@ func (s *Service) event(subj string, data interface{}) {
 
 	payload, err := json.Marshal(data)
 	if err == nil {
+		verifPoint("publish.enter", subj)
 		s.tracef("<-- %s: %s", subj, payload)
 		err = s.nc.Publish(subj, payload)
 	}
@@ -1080,6 +1088,7 @@ func (s *Service) event(subj string, data interface{}) {
 // rawEvent publishes the payload on a subject, and logs it as an outgoing
 // event.
 func (s *Service) rawEvent(subj string, payload []byte) {
+	verifPoint("publish.enter", subj)
 	s.tracef("<-- %s: %s", subj, payload)
 	err := s.nc.Publish(subj, payload)
 	if err != nil {
@@ -1180,8 +1189,11 @@ func (s *Service) processRequest(m *nats.Msg, rtype, rname, method string, mh *M
 
 func (s *Service) queryEventExpire(v interface{}) {
 	qe := v.(*queryEvent)
+	verifPoint("query.expire", qe.sub)
 	qe.sub.Drain()
+	verifPoint("query.drained", qe.sub)
 	s.runWith(qe.r.Group(), func() {
 		qe.cb(nil)
 	})
+	verifPoint("query.nilqueued", qe.sub)
 }
